@@ -34,6 +34,7 @@ def correspond(model_ok, res):
     # structured corpus (prefix chains x operand kinds x contexts); a seeded third of it in the quick tier
     sc = PG.structured_corpus()
     strings += sc if not quick else r.sample(sc, len(sc) // 3)
+    strings += list(PG.MALFORMED)          # the shared corpus of malformed and odd-but-legal queries
     # layout variants: the same token sequence with two different layouts
     pairs = []
     for _ in range(150 if quick else 1500):
